@@ -15,7 +15,8 @@ claim('C14', 'other', 'contract-based deductive verification on an abstract heap
       T_ASSUME + 'Proof rule R2 (DAG induction) lifts the local equation to truth-table preservation; ARITY precondition on the converted gate.', 'DESIGN.md §6 C14')
 claim('C15', 'other', 'contract-based deductive verification of the three-valued operator tables (monotonicity/totality VCs, fold induction); bounded stand-in for circuit-level evaluation',
       'Every operator is proved monotone w.r.t. the information order and total on total arguments for all argument values; n-ary operators are proved to be folds of their binary case for every arity; '
-      'circuit-level soundness/monotonicity is checked by the bounded stand-in over all 3^n partial assignments of enumerated circuits.',
+      'the totality clause is proved at circuit level for every well-formed circuit: under a total Boolean assignment evaluate_full_circuit leaves no gate Undefined and evaluate_circuit leaves no requested output Undefined (the C01 loop invariants). '
+      'Circuit-level soundness/monotonicity under PARTIAL assignments is checked by the bounded stand-in over all 3^n partial assignments of enumerated circuits.',
       T_ASSUME + 'Background lemma: folds of monotone steps are monotone.', 'DESIGN.md §6 C15')
 NA['C02'] = 'no deductive obligation built yet for this property in this build (a bounded stand-in driver exists under vlib/bounded but is not registered, because a bounded-only check would be a different technique)'
 NA['C03'] = 'no deductive obligation built yet for this property in this build (a bounded stand-in driver exists under vlib/bounded but is not registered, because a bounded-only check would be a different technique)'
@@ -40,8 +41,8 @@ for _k in ('C02', 'C07', 'C09'):
     NA.pop(_k, None)
 claim('C02', 'other', 'contract-based deductive verification (class-invariant rule R5) on an abstract heap: real mutator bodies symbolically executed, WF clauses discharged by z3/cvc5; prefix-count loop invariants for gates of arbitrary arity; modular call rule for the users-index primitives',
       'For an arbitrary well-formed circuit: _add_user/_remove_user meet the contracts used at their call sites; _emplace_gate, _add_gate, emplace_gate, add_gate (gate of any type and ANY arity), remove_gate/_remove_gate (incl. blocks and outputs), '
-      'mark_as_output, set_outputs, delete_block preserve every WF clause, with exact raise conditions and untouched state on raise — proved for all circuits; converters: see C14. '
-      'The other public mutators (rename_gate, set_inputs, add_inputs, replace_inputs, order_*, make_block*, connect_circuit family, replace_subcircuit, copy) and whole histories are exercised by the bounded stand-in, so the claim is not `proof`.',
+      'rename_gate (arbitrary arity, any number of users, repeated outputs, blocks; three loops cut by closed-form invariants), mark_as_output, set_outputs, delete_block preserve every WF clause, with exact raise conditions and untouched state on raise — proved for all circuits; converters: see C14. '
+      'The other public mutators (set_inputs, add_inputs, replace_inputs, order_*, make_block*, connect_circuit family, replace_subcircuit, copy) and whole histories are exercised by the bounded stand-in, so the claim is not `proof`.',
       T_ASSUME + 'Abstract model of the five Circuit containers (count/positional views); background lemmas on tuple counts; histories: bounded (<=2 calls exhaustive + random <=6).', 'DESIGN.md §6 C02')
 claim('C07', 'other', 'contract-based deductive verification on an abstract host circuit: generator + circuit code symbolically executed, value equation / freshness frame / WF / basis obligations discharged by z3',
       'Leaf gadgets (sum2/3, aig variants, stockmeyer, mdfa, simplified mdfa) proved for all operand values, all hosts and operand aliasing; add_sum_n_bits (n<=5 quick / 7 thorough, both bases, several spellings), add_sum_two_numbers and _with_shift '
@@ -70,10 +71,11 @@ claim('C13', 'other', 'contract-based deductive verification of the comparison s
       'Proved: add_pairwise_xor adds fresh XOR gates computing the pointwise difference (n<=3, all aliasing, WF kept); build_miter raises MiterDifferentShapesError exactly for mismatched shapes before touching its operands. '
       'The composition steps and the evaluated miter are bounded-only.',
       T_ASSUME, 'DESIGN.md §6 C13')
-claim('C19', 'other', 'contract-based deductive verification on the abstract heap: remove_gate and replace_inputs; bounded stand-in for rename_gate / replace_subcircuit',
+claim('C19', 'other', 'contract-based deductive verification on the abstract heap: remove_gate, replace_inputs and rename_gate (closed-form loop invariants, ghost lemmas); bounded stand-in for replace_subcircuit',
       'Proved for an arbitrary well-formed circuit: remove_gate succeeds exactly for an existing unused gate, removes it from gates/users/inputs/outputs, drops blocks naming it and keeps WF; replace_inputs (<=2 labels per list) retypes exactly the listed inputs to the constants, '
-      'removes them from the input list, leaves every other gate, the users index, outputs and blocks untouched, keeps WF, with exact raise conditions. rename_gate, replace_subcircuit and the input order / cofactor statement are bounded-only.',
-      T_ASSUME + 'proof rule R2 for the cofactor claim.', 'DESIGN.md §6 C19')
+      'removes them from the input list, leaves every other gate, the users index, outputs and blocks untouched, keeps WF, with exact raise conditions; rename_gate maps the whole state to its image under old -> new (gates, operand tuples position-wise, users counts, inputs and outputs position-wise, block lists), keeps WF, '
+      'raises exactly for an absent old / present new label and then leaves the state untouched. replace_subcircuit and the input order / cofactor statement are bounded-only; Block._rename_gate is proved position-wise for lists up to (2,3,2) and used by a count-level summary at its call site.',
+      T_ASSUME + 'proof rule R2 for the cofactor claim; representation lemmas of lists (lean/Background.lean).', 'DESIGN.md §6 C19')
 
 for _k in ('C08', 'C16'):
     NA.pop(_k, None)
@@ -81,9 +83,11 @@ claim('C08', 'other', 'contract-based deductive verification on an abstract host
       'All seven multiplier entry points (default, alter, both Karatsuba forms, Dadda, Wallace, pow2_m1) and add_square are proved exact for operands of 1..2 bits (3 in thorough): product value, result length, fresh gates only, WF — for all operand values, all hosts and operand aliasing. '
       'Everything wider, in particular the Karatsuba / squarer recursion, is bounded-only (exhaustive values up to 16 bits total, corner and random values at the recursion widths).',
       T_ASSUME + 'operand labels are not the generators\' sentinel strings; uuid4 draws pairwise distinct.', 'DESIGN.md §6 C07/C08/C09')
-claim('C16', 'other', 'contract-based deductive verification of the bit-level primitives (single-step contracts over a byte-array model) and of the code tables; bounded stand-in for streams, records and circuits',
+claim('C16', 'other', 'contract-based deductive verification of the bit-level codec (single-step contracts over a byte-array model, loop invariants over an abstract bit-stream view for numbers of every width, Lean-checked round-trip lemma) and of the code tables; bounded stand-in for records and circuits',
       'Proved for all byte contents and positions: BitWriter.write appends exactly the given bit and keeps the writer invariant; BitReader.read returns the bit at the position, advances by one and raises BitIOError exactly at the end; '
-      'write_number(n, k), k in {0,1,2,3,7,8,9,12}, on an arbitrary writer state accepts exactly 0 <= n < 2^k and appends the k little-endian bits (stated on the bytes, not on the way they are produced); gate-type codes are injective/inverse and _get_arity is the table the format defines. Round trips of numbers, dictionaries and circuits are bounded-only.',
+      'write_number(n, k) on an arbitrary writer state accepts exactly 0 <= n < 2^k and appends the k little-endian bits, read_number(k) on an arbitrary reader state returns the next k bits as a little-endian number, advances by k and raises exactly when fewer than k bits are left — '
+      'both for EVERY width k >= 0 (loop invariants over the abstract bit-stream view; write() through its proved stream contract) and again for the widths {0,1,2,3,7,8,9,12} with unrolled loops (stated on the bytes, which gives counter-models for broken variants); read_number(write_number(n,k)) = n (Lean lemma for every k, SMT for the listed widths); '
+      'gate-type codes are injective/inverse and _get_arity is the table the format defines. Dictionary records, circuit encodings and database files are bounded-only.',
       T_ASSUME + 'background lemma on disjoint-bit OR (side condition proved).', 'DESIGN.md §6 C16')
 
 for _k in ('C10', 'C12'):
